@@ -28,6 +28,10 @@ type c01ProcDelivery struct {
 	IDs    []int
 }
 
+// c01ProcSlow: when set, the consumer of the first delivered window takes 900 ms (four and a half windows), so the
+// trigger side falls behind the clock while rows keep arriving.
+var c01ProcSlow bool
+
 func c01ProcRun(script []int, ch sched.Chooser) (*sched.Result, []c01ProcDelivery, []int64, string) {
 	var ds []c01ProcDelivery
 	var addAt []int64
@@ -55,6 +59,9 @@ func c01ProcRun(script []int, ch sched.Chooser) (*sched.Result, []c01ProcDeliver
 			}
 			sort.Ints(d.IDs)
 			ds = append(ds, d)
+			if c01ProcSlow && len(ds) == 1 {
+				vtime.Sleep(900 * time.Millisecond)
+			}
 		})
 		w.Start()
 		vtime.Sleep(70 * time.Millisecond) // first Add not on a window boundary
@@ -66,6 +73,9 @@ func c01ProcRun(script []int, ch sched.Chooser) (*sched.Result, []c01ProcDeliver
 			}
 		}
 		vtime.Sleep(3 * c01ProcSize)
+		if c01ProcSlow {
+			vtime.Sleep(14 * c01ProcSize)
+		}
 		sched.Quiesce()
 		w.Stop()
 		sched.Quiesce()
@@ -128,7 +138,31 @@ func c01ProcEnum(tier string) fw.Result {
 			}
 		})
 	}
-	a.sample(map[string]any{"window": "TumblingWindow('200ms') processing time", "script": "Add; Sleep d; ... with d in 0,100,200,300 ms; first Add at +70 ms"})
+	// the same scripts with a consumer that holds the first delivery for 900 ms
+	c01ProcSlow = true
+	for L := 2; L <= maxL; L++ {
+		sequences(L, len(c01ProcDeltas), func(script []int) {
+			script = append([]int(nil), script...)
+			res, ds, addAt, cerr := c01ProcRun(script, nil)
+			a.r.Evaluations++
+			a.r.States++
+			a.r.Transitions += int64(res.Steps)
+			cs := map[string]any{"script_sleep_ms_after_each_add": scriptMs(script), "first_delivery_held_ms": 900}
+			if cerr != "" || res.Status != sched.StatusOK {
+				a.fail("C01|processing-time|exec", cerr+" "+res.Status.String()+" "+firstLine(res.PanicVal), cs, nil, nil)
+				return
+			}
+			if len(ds) > 1 {
+				a.r.Nontrivial++
+			}
+			a.outcome("slow" + js(ds))
+			if kind, what := c01ProcCheck(script, ds, addAt); kind != "" {
+				a.fail("C01|tumbling|"+kind+"|slow-consumer", what, cs, nil, ds)
+			}
+		})
+	}
+	c01ProcSlow = false
+	a.sample(map[string]any{"window": "TumblingWindow('200ms') processing time", "script": "Add; Sleep d; ... with d in 0,100,200,300 ms; first Add at +70 ms; again with the first delivery held for 900 ms"})
 	return a.result()
 }
 
